@@ -44,7 +44,7 @@ def run(chk, facts, tier):
     for fn in variants(facts, SB + 'next_ll_l2cap_received', chk):
         if not fn.body.calls('add_to_receive_buffer'):
             continue
-        st = [(val, s) for tgt, op, val, s in stores(fn.body) if is_name(tgt, 'receive_size_')]
+        st = [(val, s) for tgt, op, val, s in stores(fn.body) if is_name(tgt, 'receive_size_') and cval(val) != 0]
         ok = len(st) == 1
         if ok:
             ats = guard_atoms(fn, st[0][1])
@@ -54,10 +54,17 @@ def run(chk, facts, tier):
         chk.instance('announced-size-bounded', fn, 'receive_size_ = l2cap_size + overall_overhead under l2cap_size <= MTUSize', ok, '' if ok else 'the announced SDU size is accepted without the MTU bound', key='announce')
         ok = len(st) == 1
         if ok:
-            rs = [s for tgt, op, val, s in stores(fn.body) if is_name(tgt, 'receive_buffer_used_') and cval(val) == 0 and fn.block_of(s) == fn.block_of(st[0][1])]
+            # a reset of the fill level must be executed on every path from the start-fragment test to the store / the add call
+            def in_start(node):
+                return any(op == '==' and is_name(l, 'type') and not isinstance(r, int) and strip_casts(r).n == 'pdu_type_start' for l, op, r in guard_atoms(fn, node))
+            rs = [s for tgt, op, val, s in stores(fn.body) if is_name(tgt, 'receive_buffer_used_') and cval(val) == 0 and in_start(s)]
             add = [c for c in fn.body.calls('add_to_receive_buffer') if fn.block_of(c) == fn.block_of(st[0][1])]
-            ok = len(rs) == 1 and len(add) == 1 and precedes(fn, rs[0], add[0])
-        chk.instance('start-resets-fill', fn, 'start fragment: receive_buffer_used_ = 0 with receive_size_ = ..', ok,
+            ok = len(rs) >= 1 and len(add) == 1 and any(precedes(fn, r, add[0]) for r in rs)
+            # and no early `return pdu` of the start branch may leave a stale fill level
+            for r in fn.returns():
+                if in_start(r) and is_name(ret_value(r), 'pdu'):
+                    ok = ok and any(precedes(fn, x, r) for x in rs)
+        chk.instance('start-resets-fill', fn, 'start fragment: receive_buffer_used_ = 0 before the new announced size is stored', ok,
                      '' if ok else 'a second start fragment is appended behind the first one: the delivered SDU is not "one start fragment followed by its continuations"', key='restart')
         ok = True
         n = 0
